@@ -160,6 +160,15 @@ def run_hierarchy(label, classes, leaf, res, bases_first=False):
         obj = cls()
     except Exception as e:  # noqa
         raised = e
+    if errs and raised is not None:
+        # a failed attempt must not make a later one succeed (robot code that retries, or a second robot object in one process)
+        try:
+            cls()
+        except Exception as e2:  # noqa
+            if type(e2).__name__ not in errs:
+                res.violation(f"wrong-error:second-attempt:{label}", f"second instantiation raised {type(e2).__name__}: {e2}, applicable {sorted(errs)}\n{src}", rp)
+        else:
+            res.violation(f"malformed-machine-accepted:second-attempt:{'+'.join(sorted(errs))}:{label}", f"the first instantiation raised {type(raised).__name__}, the second succeeded; expected one of {sorted(errs)}\n{src}", rp)
     if errs:
         if raised is None:
             res.violation(f"malformed-machine-accepted:{'+'.join(sorted(errs))}:{label}", f"instantiation succeeded, expected one of {sorted(errs)}\n{src}", rp)
